@@ -373,6 +373,14 @@ def _stable(text):
     return re.sub(r'\b\d+ (use\(s\)|construction site\(s\))', r'\1', text)
 
 
+def _is_groups_item(fi, e, idx):
+    """e is `<name>[idx]` where <name> is bound to `<match>.groups()`."""
+    if isinstance(e, ast.Subscript) and isinstance(e.value, ast.Name) and isinstance(e.slice, ast.Constant) and e.slice.value == idx:
+        d = U.local_defs(fi.node).get(e.value.id, [])
+        return bool(d) and all(v is not None and isinstance(v, ast.Call) and U.attr_name(v) == 'groups' for v, k, s in d)
+    return False
+
+
 def run(ctx):
     repo, ck = ctx.repo, ctx.check
     record = ck.bad
@@ -754,7 +762,7 @@ def d2_no_body(ctx):
                 break
         e = tup.elts[1] if tup is not None else None
         okint = okint and isinstance(e, ast.Call) and dotted(e.func) == 'int' and len(e.args) == 1 \
-            and norm_text(e.args[0]) in ('groups[1]', 'match.group(2)')
+            and (U.like(e.args[0], 'L_m.group(2)') or _is_groups_item(psl, e.args[0], 1))
     rxs = [RX.rx_from_call(repo, psl.module, c) for c in U.calls(psl.node) if (dotted(c.func) or '') == 're.match']
     rxs = [r for r in rxs if r is not None]
     okrx = len(rxs) == 1
